@@ -20,6 +20,7 @@ type vSrc struct {
 	failAt      int // -1: never
 	failErr     error
 	readAfterClose int
+	errWithData    bool // the failure is returned by the same Read that delivers the bytes in front of it
 }
 
 func (s *vSrc) Read(p []byte) (int, error) {
@@ -51,6 +52,9 @@ func (s *vSrc) Read(p []byte) (int, error) {
 	}
 	copy(p, s.data[s.pos:s.pos+n])
 	s.pos += n
+	if s.errWithData && s.failAt >= 0 && s.pos >= s.failAt {
+		return n, s.failErr
+	}
 	if s.pos == len(s.data) && s.eofWithData {
 		return n, io.EOF
 	}
